@@ -412,6 +412,10 @@ def rule_maxincludes(ctx):
             if lst is not None and lst.op == "loop":
                 it = s.loops[lst.a[0]][1]
                 order = it.op == "call" and call_name(it) == "beat._get_reference_beat_variations" and any(u.op == "upd" and u.a[1] == "method:append" for u in tm.walk(lst.a[3]))
+            elif lst is not None and lst.op == "comp" and lst.a[0] == "list" and len(lst.a[2]) == 1 and not lst.a[3]:
+                # one element per variation, in the order of the variations (append loop or comprehension)
+                it = lst.a[2][0]
+                order = it.op == "call" and call_name(it) == "beat._get_reference_beat_variations"
             yield ob(R, f, "%s:%d<=%d" % (q, a, b), good and order, "component %d is element 0 and component %d the max of the same per-variation list (appended in variation order)" % (a, b))
     f = ctx.program.func("tempo.detection", R)
     s = ctx.S.get(f.qual)
